@@ -11,8 +11,8 @@
 // stdout: for every constructor call performed while evaluating a recipe one record
 //   R \t LOGIC \t op \t result \t ranks \t rt \t arg1 \t arg2 ...
 //   result: printed term | undef | exc:<exception text class>
-//   ranks : "<PTRef.x>@<printed atom>" for the numeric var-like subterms of the arguments, joined by " ;; "
-//           (ArithLogic::termSort orders factors by the PTRef of their variable)
+//   ranks : "<PTRef.x>@<printed subterm>" for every subterm of the arguments, joined by " ;; "
+//           (termSort orders by PTRef; ArithLogic::termSort orders products by the PTRef of their variable)
 //   rt    : same | diff:<printed> | none     -- the same call made through Logic::resolveTerm (front-end path)
 // Printed terms: (name args..) with Logic::getSymName; numeric constants as #i<symbol name> / #r<symbol name>
 // (the raw symbol name, so differently spelled literals stay visible), constants of U as #u<name>.
@@ -145,10 +145,10 @@ struct Env {
     }
 
     void collectAtoms(PTRef tr, std::set<uint32_t> & seen, std::vector<std::string> & out) const {
-        if (tr == PTRef_Undef || !arith) return;
+        if (tr == PTRef_Undef) return;
         if (!seen.insert(tr.x).second) return;
         Logic const & l = *logic;
-        if (arith->yieldsSortNum(tr) && arith->isNumVarLike(tr)) out.push_back(std::to_string(tr.x) + "@" + print(tr));
+        out.push_back(std::to_string(tr.x) + "@" + print(tr));
         int n = l.getPterm(tr).size();
         for (int k = 0; k < n; k++) collectAtoms(l.getPterm(tr)[k], seen, out);
     }
